@@ -4,14 +4,20 @@
 (* and a reference display rf that is produced by clone / exchanged by swap), *)
 (* one action per mutating MockDisplay operation.  The statements of the      *)
 (* property (P_C20) are invariants / step properties of the machine.          *)
-(*   MC_C20.cfg               machine, small alphabet, UNBOUNDED histories    *)
-(*                            (VIEW hides the bookkeeping: 11 664 states)     *)
-(*   MC_C20_thorough.cfg      machine, whole-grid alphabet, depth-bounded     *)
-(*   MC_C20_gen*.cfg          every history of length MaxDepth over the small *)
-(*                            alphabet is a state; each is printed as one GEN *)
-(*                            descriptor (coordinates mapped onto corners /   *)
-(*                            edges of the real 64 x 64 display) and replayed *)
-(*                            into the real MockDisplay by egv_c20            *)
+(*   MC_C20.cfg               machine, alphabet "small" (three cells, a point *)
+(*                            beyond each side, 21 operations), UNBOUNDED     *)
+(*                            histories: VIEW hides the bookkeeping, the      *)
+(*                            complete state graph has 11 664 states          *)
+(*   MC_C20_thorough.cfg      machine, alphabet "grid" (every cell, the whole *)
+(*                            ring around the display), histories <= 5        *)
+(*   MC_C20_gen*.cfg          alphabet "gen" (a fourth cell in the pixel      *)
+(*                            lists); every history of length MaxDepth is a   *)
+(*                            state and is printed as one GEN descriptor      *)
+(*                            (coordinates mapped onto corners / edges of the *)
+(*                            real 64 x 64 display, colours onto the extreme  *)
+(*                            colours of one of the 12 colour types) that     *)
+(*                            egv_c20 replays into the real MockDisplay;      *)
+(*                            plus pattern descriptors over every character   *)
 EXTENDS P_C20, TLC, Json, SequencesExt
 CONSTANTS MaxDepth,     \* histories up to this length (Next is guarded, no CONSTRAINT)
           Gen,          \* TRUE: keep the history and print GEN lines
